@@ -21,6 +21,7 @@ def parseInstr (tok : String) : Option Instr :=
   | 'W' => match natsDot rest with
     | some (o :: ns) => if ns.isEmpty then none else some (.waittill o ns)
     | _ => none
+  | 'X' => match natsDot rest with | some [o, n, ms] => some (.waittillTimeout o n ms) | _ => none
   | 'N' => match natsDot rest with | some [o, n] => some (.notify o n) | _ => none
   | 'E' => match natsDot rest with | some [o, n] => some (.endon o n) | _ => none
   | 'D' => rest.toNat?.map .delete
@@ -28,6 +29,7 @@ def parseInstr (tok : String) : Option Instr :=
   | 't' => rest.toNat?.map .thread
   | 'T' => rest.toNat?.map .waitthread
   | 'p' => if rest.isEmpty then some .pause else none
+  | 'R' => rest.toNat?.map .waitParent
   | 'P' => rest.toNat?.map .pparam
   | 'e' =>
     if rest.isEmpty then some (.end_ .none)
@@ -83,7 +85,7 @@ def trailer (s : State) : String :=
   let cls := s.insts.length
   let thr := (s.threads.filter (fun e => !e.2.dead)).length
   let vm := (s.threads.filter (fun e => e.2.vmObj)).length
-  s!" idle={if cls == 0 then 1 else 0} cls={cls} thr={thr} vm={vm} tim={s.timer.elems.length} ev=0 cur={if s.cur.isSome then 1 else 0}"
+  s!" idle={if cls == 0 && s.events.isEmpty then 1 else 0} cls={cls} thr={thr} vm={vm} tim={s.timer.elems.length} ev={s.events.length} cur={if s.cur.isSome then 1 else 0}"
 
 def reply (st : St) (status : String) (extra : String := "") : St × String :=
   let (s', o) := takeOut st.s
@@ -101,6 +103,8 @@ def step (st : St) (t : List String) : St × String :=
     | some p => reply { st with s := hostScript st.s (p.map (·.2)) (p.map (·.1)) } "ok"
     | none => (st, "bad-op")
   | "call" :: _name :: label :: args =>
+    -- no script compiled under that name: the engine's file lookup fails with a script error
+    if st.s.prog.isEmpty then reply { st with lastCall := none } "err ScriptError" else
     match labelIdx label, args.mapM parseArg with
     | none, _ => (st, "bad-op")
     | _, none => (st, "bad-op")
@@ -112,6 +116,7 @@ def step (st : St) (t : List String) : St × String :=
       else reply { s := s', lastCall := none } status      -- the host's Event of the failed call holds no result
   | ["callv", _name, label] =>
     -- `director.ExecuteThread(script, label)`: no host Event, no result cell
+    if st.s.prog.isEmpty then reply st "err ScriptError" else
     match labelIdx label with
     | none => (st, "bad-op")
     | some l =>
